@@ -326,7 +326,9 @@ func (a *Announce) AnnounceName(name string) bool {
 func (a *Announce) GetStatus(meta types.NamespacedName) []IPAdvertisement {
 	a.RLock()
 	defer a.RUnlock()
-	return a.ips[meta.String()]
+	// Return a copy: SetBalancer overwrites the elements in place, and the
+	// caller reads the result after the lock is released.
+	return append([]IPAdvertisement(nil), a.ips[meta.String()]...)
 }
 
 // GetInterfaces returns current interfaces list.
